@@ -181,4 +181,16 @@ CLAIMS = {
     design_ref="DESIGN.md §3 C15",
     note=_corr + "Schoenberg-Whitney non-singularity is a hypothesis (PivotsGood); Marsden/reproduction not proved (partial).",
     technique="Lean 4 + Mathlib proof (composition of C13 soundness with the collocation matrix) + differential correspondence + model-free oracle"),
+ "C16": dict(
+    text="Lean 4 theorems: the bincode wire format of Dual, Dual2, Number, PPSpline (3 types), FXRates (quotes + currencies "
+         "only) and NamedCal (name only), modelled from serde's derive layout, round-trips for every value whose sizes fit "
+         "64 bits - floats as arbitrary bit patterns (C16_bincode_*; combinator lemmas for integers, sequences, strings, "
+         "options, ndarray). The model's bytes are compared byte for byte with the implementation's on every run. PARTIAL "
+         "(validation, not proof): JSON text layer, tagged entry point, Cal/UnionCal, the Curve decoder and 'answers every "
+         "query identically' are decided by model-free round trips on the real code with arbitrary finite doubles (they "
+         "exposed the missing float_roundtrip feature, repaired).",
+    design_ref="DESIGN.md §3 C16",
+    note="Trusted: serde/serde_json/ryu/bincode/chrono/ndarray implementations (validated by byte comparison and round trips "
+         "only); Lean kernel; the wire-format model mirrors observed bytes.",
+    technique="Lean 4 proof of the wire-format round trip + byte-exact differential correspondence + model-free round trips"),
 }
